@@ -215,7 +215,7 @@ func main() {
 	if a.N > 0 {
 		nProg = a.N
 	}
-	wd := vh.NewWatchdog(rep, 120*time.Second)
+	wd := vh.NewWatchdog(rep, 180*time.Second)
 	wd.Beat("creating 128 interpreters")
 	ncfg := 1 << uint(len(optBits)+1)
 	cfgs := make([]*config, ncfg)
